@@ -51,7 +51,7 @@ class C07(Check):
                        "BPTC19696, Trellis34, CRC-9/CRC-32/CRC-CCITT, SlotType/Golay, DataHeader, CSBK, RateXXData"]
     stub_components = ["AirChannel (in-process, carries 33-byte bursts)", "secrets seam", "time() seam", "stdout sink", "recording observers",
                        "voice calls are built by the simulator with the real encoders"]
-    assumptions = ["CRC-32 correctness against the standard is C05's subject: the oracle recomputes it with the library's own CRC32 over the received data",
+    assumptions = ["the trailing CRC-32 is recomputed over the received data by a hand-written B.3.9 routine (air.ref_crc32, cross-checked against the library by selftest/encoders.py), not by the library's engine",
                    "no fault is injected in this arm; the hostile element is the schedule and the receiver state carried over from earlier transmissions"]
 
     def preload(self):
@@ -84,7 +84,7 @@ class C07(Check):
             cc = w.randrange(16)
             bursts, meta = air.generated_data_tx(w, rate, conf, n, w.choice([0, 1, 2, 3, 16]), cc,
                                                  w.choice([air.SAPIdentifier.ShortData, air.SAPIdentifier.UDP_IP_compression, air.SAPIdentifier.IP_PacketData]),
-                                                 w.choice(["random", "zero", "ff", "counter"]), dst=77)
+                                                 w.choice(["random", "zero", "ff", "counter", "runs"]), dst=77)
             return {"knobs": {"terminals": [77], "entropy_seed": k.getrandbits(32), "second_observer": False},
                     "ops": [{"kind": "data", "term": 77, "ts": w.choice([1, 2]), "bursts": [[b.hex(), bt, tag] for b, bt, tag in bursts], "meta": meta}], "schedule": []}
         terms = [77] if k.random() < 0.6 else [77, 1234]
@@ -109,7 +109,7 @@ class C07(Check):
                 if fmt == "sdd":
                     n = min(n, 62 * air.TAB[(rate, conf)][0])  # appended blocks is a 6-bit field
                 try:
-                    bursts, meta = air.generated_data_tx(w, rate, conf, n, pre, cc, sap, w.choice(["random", "random", "zero", "ff", "counter"]), dst=term, fmt=fmt)
+                    bursts, meta = air.generated_data_tx(w, rate, conf, n, pre, cc, sap, w.choice(["random", "random", "zero", "ff", "counter", "runs", "runs"]), dst=term, fmt=fmt)
                 except Exception as e:  # the transmitter side of the system under test failed for a legal configuration: judged in execute()
                     ops.append({"kind": "data", "term": term, "ts": ts, "bursts": [], "gen_error": f"{type(e).__name__}: {e}"[:300],
                                 "meta": {"rate": rate, "conf": conf, "n": n, "preambles": pre, "cc": cc, "sap": sap.name, "fmt": fmt, "nblocks": 0, "poc": -1, "payload": ""}})
@@ -245,7 +245,7 @@ class C07(Check):
         if len(rate_blocks) != m["nblocks"]:
             V("C07.payload", f"{len(rate_blocks)} data blocks handed over, generator produced {m['nblocks']}")
         if rate_blocks:
-            crc_want = int.from_bytes(CRC32.calculate(data).to_bytes(4, "little"), "big")
+            crc_want = int.from_bytes(air.ref_crc32(data).to_bytes(4, "little"), "big")  # hand-computed, not the library's engine
             got = rate_blocks[-1].crc32
             got = int.from_bytes(got, "big") if isinstance(got, (bytes, bytearray)) else got
             if got != crc_want:
@@ -333,6 +333,8 @@ class C08(Check):
                 knobs["raising_observer"] = {"on": on, "pos": f.randrange(2), "exc": f.choice(["ValueError", "KeyError", "RuntimeError", "AssertionError", "ZeroDivisionError", "ValueError", "SystemExit", "GeneratorExit", "CancelledError"])}
         ntx = k.choice([1, 2, 3, 4, 6, 8])
         long_voice = k.random() < 0.02
+        # size-boundary runs: data transmissions as long as the air interface allows (8-bit preamble count, 7-bit blocks-to-follow)
+        long_data = k.random() < 0.04
         # counter-boundary runs: the first call on a slot has a total length around the 8-bit sequence wrap, followed by ordinary traffic
         wrap_total = k.choice([254, 255, 256, 256, 257, 258, 511, 512, 513]) if k.random() < 0.04 else None
         if wrap_total:
@@ -359,7 +361,12 @@ class C08(Check):
             elif kind == "gen_data":
                 rate, conf = w.choice(["R12", "R34", "R1"]), w.random() < 0.5
                 n = w.choice([0, 3, 5, 6, 8, 9, 12, 20, 40])
-                bursts, _ = air.generated_data_tx(w, rate, conf, n, w.choice([0, 1, 2, 3]), cc,
+                gpre = w.choice([0, 1, 2, 3])
+                if long_data:
+                    n = {"R12": 12, "R34": 18, "R1": 24}[rate] - (2 if conf else 0)
+                    n = n * w.choice([60, 100, 120, 126]) - 4  # up to the 7-bit blocks-to-follow limit
+                    gpre = w.choice([0, 3, 64, 100, 120])
+                bursts, _ = air.generated_data_tx(w, rate, conf, n, gpre, cc,
                                                   w.choice([air.SAPIdentifier.ShortData, air.SAPIdentifier.UDP_IP_compression, air.SAPIdentifier.UDP_IP_compression]),
                                                   w.choice(["random", "zero"]), dst=term)
             elif kind == "hand_data":
@@ -367,8 +374,12 @@ class C08(Check):
                 nblk = max(0, btf + w.choice([0, 0, 0, -1, 1, 2]))
                 bursts = []
                 npre = w.choice([0, 0, 1, 2, 3])
+                if long_data:
+                    btf = w.choice([5, 63, 64, 126, 127])
+                    nblk = max(0, btf + w.choice([0, 0, 0, -1, 1, 2]))
+                    npre = w.choice([0, 3, 64, 127, 128, 129, 200, 255])
                 for j in range(npre):
-                    right = btf + 1 + (npre - 1 - j)
+                    right = min(255, btf + 1 + (npre - 1 - j))
                     bursts.append((air.csbk_burst(w, cc, pre=True, btf=right if w.random() < 0.7 else w.choice([0, 1, 2, 255])), "D", "pre"))
                 if w.random() < 0.85:
                     sap = w.choice([None, air.SAPIdentifier.UDP_IP_compression, air.SAPIdentifier.UDP_IP_compression])
